@@ -307,7 +307,13 @@ func mentionsCff(e constraint.Expr) bool {
 func genHeader(t *rapid.T) (header string, extraTags []string, label string) {
 	header, extraTags, label = genHeader0(t)
 	// comments and blank lines that may legally precede build constraints
-	switch uniform(t, "preamble", 8) {
+	pre := uniform(t, "preamble", 8)
+	if pre <= 1 && !strings.Contains(header, "//go:build") {
+		// go/build stops looking for "// +build" lines at the first block
+		// comment: such a file would carry no effective constraint at all
+		pre = 2
+	}
+	switch pre {
 	case 0:
 		header, label = "/* Copyright 2024 Example Inc. */\n\n"+header, label+"+blockcomment1"
 	case 1:
@@ -701,7 +707,9 @@ func runGenCase(gc *genCase, keepDir *string) *genOutcome {
 			}
 		}
 		if hasTest {
-			targs := []string{"vet"}
+			// compile the package together with its (generated) test files; not
+			// "go vet", whose buildtag analyzer also judges the SOURCE files
+			targs := []string{"test", "-c", "-o", filepath.Join(dir, "p.test")}
 			if len(gc.tags) > 0 {
 				targs = append(targs, "-tags="+strings.Join(gc.tags, ","))
 			}
